@@ -1817,6 +1817,11 @@ def suite_failures(exe, tier, seed):
         for (case, files) in (("missing-only", ["missing.circom"]), ("missing-first", ["missing.circom", clean]), ("missing-last", [clean, "missing.circom"]),
                               ("directory-as-file", [clean, "dir.circom/"]) if False else ("missing-between", [lib, "missing.circom", clean])):
             expect_failure("unreadable-file", case, files, "a file named on the command line cannot be opened")
+        # ---- a file named with another extension: it is a user-specified file like any other
+        write("bad.txt", "pragma circom 2.0.0;\ntemplate Bad(a, a) { signal input i; signal output o; o <== i + a; }\ncomponent main = Bad(1, 2);\n")
+        for (case, files) in (("missing-other-extension", ["missing.txt"]), ("missing-no-extension", [clean, "missing"]),
+                              ("unanalysable-other-extension", ["bad.txt"]), ("unanalysable-other-extension-last", [lib, "bad.txt"])):
+            expect_failure("unreadable-file", case, files, "a named file whose name does not end in .circom")
         # ---- C: unsupported compiler version
         for v in ("3.0.0", "2.99.0", "1.0.0", "2.3.0"):
             f = write("ver.circom", FAIL_CLEAN.replace("pragma circom 2.0.0;", f"pragma circom {v};") + FAIL_MAIN)
@@ -1869,7 +1874,7 @@ def suite_failures(exe, tier, seed):
     finally:
         shutil.rmtree(d, ignore_errors=True)
     return {"unit": "e2e-failures", "evaluations": evals, "distinct_nontrivial": nontrivial, "exhaustive": False,
-            "rule": "the real CLI on a clean two-template project into which one failure is injected: a named file that does not exist (alone, first, last, between), an unsupported `pragma circom` version (4 versions, first and second file), an illegal character or a stray brace before a token of the file (every token thorough, every fifth quick) and an unterminated comment, a malformed tuple or anonymous component (4 forms), a repeated parameter name (template first / last, function, a template that four others instantiate — repeated runs), two main components (both file orders), a syntax error or parameter collision in a named file that another named file includes (both orders); each under --level warning and --level error: the exit status is non-zero, `No issues found.` is not printed, and an error-level report is displayed; the clean project itself exits 0",
+            "rule": "the real CLI on a clean two-template project into which one failure is injected: a named file that does not exist (alone, first, last, between; also with another or no extension) or that cannot be analysed and is named with another extension, an unsupported `pragma circom` version (4 versions, first and second file), an illegal character or a stray brace before a token of the file (every token thorough, every fifth quick) and an unterminated comment, a malformed tuple or anonymous component (4 forms), a repeated parameter name (template first / last, function, a template that four others instantiate — repeated runs), two main components (both file orders), a syntax error or parameter collision in a named file that another named file includes (both orders); each under --level warning and --level error: the exit status is non-zero, `No issues found.` is not printed, and an error-level report is displayed; the clean project itself exits 0",
             "bound": "8 failure classes; syntax errors at " + ("every" if tier == "thorough" else "every fifth") + " token of a 17-line file; 2 levels each",
             "samples": samples, "violations": viol}
 
